@@ -10,6 +10,8 @@ from .. import gens
 from ..harness import KNOWN, KnownFinding, Sub, Violation, known
 from ..refs import kauri_ref as KR
 
+QUICK_SCALE = 3  # quick budgets below are multiplied by this (kept at about half a minute on 8 processes)
+
 RULE = ("(A) arbitrary consistent intermediate states: n in [3,12] samples on a small integer grid (ties, duplicates), "
         "d<=3, symmetric kernels (PSD, indefinite, tanh-like), up to 5 leaves, every cluster non-empty, K_max >= "
         "n_clusters, explorable and feature subsets, min_leaf in [1,3]; (B) every find_best_split call of real "
